@@ -115,6 +115,25 @@ class C10(Property):
             enc4(text, "bundled")
             reftext(data, "bundled-raw")
 
+        # the four encodings delivered in pieces (BOM in its own chunk, BOM split, tiny first chunks): the result must
+        # still be the one of from_bytes (oracle of `framesched`)
+        from ..gen import encodings
+        for _ in range(300 if quick else 8000):
+            text, _ = gen_text(rng)
+            if text.startswith("\ufeff"):
+                continue
+            for enc, data in encodings(text).items():
+                if len(data) < 2:
+                    continue
+                k = rng.choice([1, 2, 2, 3, rng.randint(1, min(8, len(data)))])
+                parts = [data[:k]]
+                rest = data[k:]
+                while rest:
+                    j = rng.choice([1, 2, 3, 5, 64, len(rest)])
+                    parts.append(rest[:j])
+                    rest = rest[j:]
+                cases.append(Case("framesched " + " ".join("c" + hexs(p) for p in parts if p), tags=("chunked-" + enc,)))
+
         # scalar values as single-character content
         if quick:
             cps = list(SPECIAL_SCALARS) + list(range(0x0, 0x100)) + list(range(0x9F0, 0xA10))
